@@ -83,7 +83,17 @@ fn oracle<R: Residual>(model: &Arc<R>, t: f64, x: &[f64], rho_max: f64) -> Value
     let c1 = (f1 - f2) / (h / 2.0);
     let c2 = (f2 - f4) / (h / 4.0);
     let c = 2.0 * c2 - c1;
-    json!({"B_limit": b, "C_limit": c, "h": h, "samples": [f1, f2, f4]})
+    // the same extrapolation with a 16 times smaller base step: the difference of the two estimates measures the truncation
+    // error of the oracle (strongly associating fluids at low temperature have a very small radius of convergence)
+    let rich = |h: f64| -> Option<(f64, f64)> {
+        let (f1, f2, f4) = (f(h)?, f(h / 2.0)?, f(h / 4.0)?);
+        let (b1, b2) = (2.0 * f2 - f1, 2.0 * f4 - f2);
+        let (c1, c2) = ((f1 - f2) / (h / 2.0), (f2 - f4) / (h / 4.0));
+        Some(((4.0 * b2 - b1) / 3.0, 2.0 * c2 - c1))
+    };
+    let fine = rich(h / 16.0);
+    json!({"B_limit": b, "C_limit": c, "h": h, "samples": [f1, f2, f4],
+           "B_limit_fine": fine.map(|x| x.0), "C_limit_fine": fine.map(|x| x.1)})
 }
 
 const BODY: &str = r#"
